@@ -199,7 +199,10 @@ func (c *Ctx) RunTLC(o TLCOpts) (*TLCResult, error) {
 	if o.Workers == 1 && !o.ParallelGC {
 		gc = "-XX:+UseSerialGC" // many single-worker JVMs run side by side: parallel GC threads only fight each other (4x slower, measured)
 	}
-	args := []string{gc, fmt.Sprintf("-Xmx%dm", o.HeapMB), "-Xss512m", "-cp", tlaJars, "tlc2.TLC",
+	jtmp := meta + "-tmp" // TLC and SANY leave tlc-* / SANY* directories in java.io.tmpdir: keep them out of /tmp
+	os.MkdirAll(jtmp, 0o755)
+	defer os.RemoveAll(jtmp)
+	args := []string{gc, fmt.Sprintf("-Xmx%dm", o.HeapMB), "-Xss512m", "-Djava.io.tmpdir=" + jtmp, "-cp", tlaJars, "tlc2.TLC",
 		"-workers", strconv.Itoa(o.Workers), "-metadir", meta, "-noGenerateSpecTE", "-seed", strconv.FormatInt(c.Seed, 10)}
 	if o.Cfg != "" {
 		args = append(args, "-config", o.Cfg)
@@ -302,12 +305,16 @@ func (c *Ctx) Apalache(module, what string, expectViolation bool, args ...string
 	full = append(full, module)
 	cmd := exec.Command("timeout", full...)
 	cmd.Dir = filepath.Join(c.Work, "spec")
+	atmp := outDir + "-tmp"
+	os.MkdirAll(atmp, 0o755)
+	cmd.Env = append(os.Environ(), "TMPDIR="+atmp) // apalache-mc makes its SANY* directory with mktemp -t
 	var out bytes.Buffer
 	cmd.Stdout = &out
 	cmd.Stderr = &out
 	t0 := time.Now()
 	cmd.Run()
 	os.RemoveAll(outDir)
+	os.RemoveAll(atmp)
 	o := out.String()
 	ok := strings.Contains(o, "The outcome is: NoError") && strings.Contains(o, "EXITCODE: OK")
 	viol := strings.Contains(o, "The outcome is: Error") && strings.Contains(o, "EXITCODE: ERROR (12)")
